@@ -6,8 +6,8 @@
 //! releases a mutating thread and one or two reading threads through a spin gate and
 //! lets them race for real.  Freed memory is poisoned by the harness allocator and
 //! elements carry a magic number, so a read through a stale buffer pointer is seen as
-//! a "use of garbage" anomaly even when it does not crash.  Operations of the two
-//! known findings (get, concat) are not used.
+//! a "use of garbage" anomaly even when it does not crash.  All list operations take part, get and concat included
+//! (their two defects, C16-F1 and C16-F2, were repaired).
 
 use std::sync::Arc;
 use std::sync::atomic::{AtomicUsize, Ordering};
@@ -27,6 +27,8 @@ pub struct StressFns {
     s_push: TypedFunc<NoCtx, fn(L, Val<Tr>)>,
     s_len: TypedFunc<NoCtx, fn(L) -> u64>,
     s_swap: TypedFunc<NoCtx, fn(L, u64, u64)>,
+    s_get: TypedFunc<NoCtx, fn(L, u64) -> Option<Val<Tr>>>,
+    s_concat_len: TypedFunc<NoCtx, fn(L, L) -> u64>,
     _pkg: roto::Package<NoCtx>,
     _rt: Runtime<NoCtx>,
 }
@@ -39,6 +41,8 @@ fn s_index(l: List[Tr], x: Tr) -> u64? { l.index(x) }
 fn s_push(l: List[Tr], x: Tr) { l.push(x); }
 fn s_len(l: List[Tr]) -> u64 { l.len() }
 fn s_swap(l: List[Tr], i: u64, j: u64) { l.swap(i, j); }
+fn s_get(l: List[Tr], i: u64) -> Tr? { l.get(i) }
+fn s_concat_len(a: List[Tr], b: List[Tr]) -> u64 { (a + b).len() }
 ";
 
 pub fn build() -> Result<StressFns, String> {
@@ -57,6 +61,8 @@ pub fn build() -> Result<StressFns, String> {
         s_push: get!("s_push"),
         s_len: get!("s_len"),
         s_swap: get!("s_swap"),
+        s_get: get!("s_get"),
+        s_concat_len: get!("s_concat_len"),
         _pkg: pkg,
         _rt: rt,
     })
@@ -94,13 +100,16 @@ enum Reader {
     ContainsMissingRust,
     ToVecRust,
     IsEmptyRust,
-    /// only with mutator Nobody (concat under concurrent mutation is known finding C16-F2)
     ConcatAB,
     ConcatBA,
+    ConcatScript,
+    GetRustLast,
+    GetScriptLast,
+    GetRustFirst,
 }
 
 const MUTATORS: [Mutator; 9] = [Mutator::Nobody, Mutator::PushRust, Mutator::PushScript, Mutator::PushTwice, Mutator::SwapEnds, Mutator::SwapScript, Mutator::CloneDropHandle, Mutator::TwoPushers, Mutator::TwoSwappers];
-const READERS: [Reader; 16] = [
+const READERS: [Reader; 20] = [
     Reader::EqRustAB,
     Reader::EqRustBA,
     Reader::EqScriptAB,
@@ -117,6 +126,10 @@ const READERS: [Reader; 16] = [
     Reader::IsEmptyRust,
     Reader::ConcatAB,
     Reader::ConcatBA,
+    Reader::ConcatScript,
+    Reader::GetRustLast,
+    Reader::GetScriptLast,
+    Reader::GetRustFirst,
 ];
 
 struct Cfg {
@@ -133,11 +146,6 @@ fn decode(ctl: &[u8]) -> Cfg {
     let mutator = MUTATORS[c.below(MUTATORS.len())];
     let nr = if mutator == Mutator::Nobody { 2 } else { 1 + c.below(2) };
     let mut readers: Vec<Reader> = (0..nr).map(|_| READERS[c.below(READERS.len())]).collect();
-    for r in readers.iter_mut() {
-        if mutator != Mutator::Nobody && matches!(r, Reader::ConcatAB | Reader::ConcatBA) {
-            *r = Reader::LenRust;
-        }
-    }
     if mutator == Mutator::Nobody {
         // both orders at once
         let pairs = [(Reader::ConcatAB, Reader::ConcatBA), (Reader::EqRustAB, Reader::EqRustBA), (Reader::EqScriptAB, Reader::EqScriptBA), (Reader::ConcatAB, Reader::EqRustBA)];
@@ -331,14 +339,36 @@ pub fn run(fns: &Arc<StressFns>, ctl: &[u8], render: bool) -> Outcome {
                         Reader::IsEmptyRust => {
                             if a.is_empty() && len0 > 0 { Err("is_empty() on a non-empty list".into()) } else { Ok(()) }
                         }
-                        Reader::ConcatAB => {
-                            let r = a.concat(&b);
-                            if r.len() == a.len() + b.len() { Ok(()) } else { Err(format!("a.concat(b) has {} elements", r.len())) }
+                        Reader::ConcatAB | Reader::ConcatBA => {
+                            let r = if r == Reader::ConcatAB { a.concat(&b) } else { b.concat(&a) };
+                            // every element of the result was in one of the lists at one moment
+                            let n = r.len();
+                            for x in r.to_vec().iter() {
+                                x.0.touch("element of a concatenation");
+                            }
+                            if n >= len0 + blen0 && n <= len0 + blen0 + 2 { Ok(()) } else { Err(format!("the concatenation has {n} elements for lists of {len0} (+ at most 2 pushes) and {blen0} elements")) }
                         }
-                        Reader::ConcatBA => {
-                            let r = b.concat(&a);
-                            if r.len() == a.len() + b.len() { Ok(()) } else { Err(format!("b.concat(a) has {} elements", r.len())) }
+                        Reader::ConcatScript => {
+                            let n = fns.s_concat_len.call(a.clone(), b.clone()) as usize;
+                            if n >= len0 + blen0 && n <= len0 + blen0 + 2 { Ok(()) } else { Err(format!("script a + b has {n} elements for lists of {len0} (+ at most 2 pushes) and {blen0} elements")) }
                         }
+                        Reader::GetRustLast | Reader::GetRustFirst => {
+                            let i = if r == Reader::GetRustLast { len0 - 1 } else { 0 };
+                            match a.get(i) {
+                                Some(x) => {
+                                    x.0.touch("element returned by get");
+                                    Ok(())
+                                }
+                                None => Err(format!("get({i}) on a list of at least {len0} elements returned None")),
+                            }
+                        }
+                        Reader::GetScriptLast => match fns.s_get.call(a.clone(), (len0 - 1) as u64) {
+                            Some(x) => {
+                                x.0.touch("element returned by script get");
+                                Ok(())
+                            }
+                            None => Err(format!("script get({}) on a list of at least {len0} elements returned None", len0 - 1)),
+                        },
                     };
                     res.map(|_| (st, t0.elapsed().as_nanos())).map_err(|e| format!("{r:?}: {e}"))
                 }));
